@@ -5,6 +5,7 @@ import (
 	"fmt"
 	"math/rand"
 	"os"
+	"sort"
 	"strings"
 
 	"github.com/yorkie-team/yorkie/pkg/document"
@@ -124,6 +125,17 @@ type c15World struct {
 	// undo/redo or by applying a peer's): the precise precondition of F-UNDO-AFTER-PURGE
 	ever      map[string]map[string]bool
 	recreated bool
+	// onlyPlacementDiffers (set where two documents are found to differ): both hold the same
+	// characters, nodes and values, only their order / position differs - the symptom of
+	// F-UNDO-AFTER-PURGE (a re-created node is PLACED by guessing). Content that is
+	// missing, doubled or different on one side is not that finding.
+	onlyPlacementDiffers bool
+	// editedAfterRecreation: an edit, undo or redo was made after an undo/redo whose restore
+	// some replica (possibly much later, when the change reaches it) applies by re-creating
+	// purged nodes. Ranges are resolved between two positions; where the replicas order the
+	// content differently the same range covers different nodes, and the difference is no
+	// longer one of placement only.
+	editedAfterRecreation bool
 	// arrayRisk: a change inserted an array element next to a tombstone (precondition of F-RGA-PURGE)
 	sawDupRestore bool
 	race          bool
@@ -224,18 +236,18 @@ func (w *c15World) viol(kind, detail string) {
 		ident = "array-insert-next-to-tombstone:" + kind
 	case w.refTombstone && (kind == "sync-failed" || kind == "log-not-replayable" || kind == "replicas-diverged" || kind == "late-replica-differs"):
 		ident = "undo-after-purge:array-anchor:" + kind
-	case w.recreated && (kind == "replicas-diverged" || kind == "late-replica-differs" || kind == "sync-failed" || kind == "log-not-replayable"):
+	case w.recreated && ((kind == "replicas-diverged" || kind == "late-replica-differs") && (w.onlyPlacementDiffers || w.editedAfterRecreation) || kind == "sync-failed" || kind == "log-not-replayable"):
 		// F-UNDO-AFTER-PURGE, observed precisely: some replica (the author of an undo/redo,
 		// or a peer applying it) had purged a text piece / tree node and re-created it from
 		// the restore span, while a replica that still held the tombstone revived it in
 		// place. Where a re-created node goes is a guess (C14 shows the single-client form).
 		ident = "undo-after-purge:recreated:" + kind
-	case w.undoAfterPurge && w.rp.Family == "exhaustive-text" && w.textEditedByTwoActors():
+	case w.undoAfterPurge && w.rp.Family == "exhaustive-text" && w.textEditedByTwoActors() && (w.onlyPlacementDiffers || w.editedAfterRecreation || (kind != "replicas-diverged" && kind != "late-replica-differs")):
 		// GC-recreate of purged text next to content another client wrote: the collected
 		// replicas and a replica that still holds the tombstones place it differently.
 		// Undo after a purge on a text only ONE client ever edited stays fully judged.
 		ident = "undo-after-purge:text-two-writers:" + kind
-	case w.undoAfterPurge && (w.rp.Family == "random" || w.rp.Family == "exhaustive-tree"):
+	case w.undoAfterPurge && (w.rp.Family == "random" || w.rp.Family == "exhaustive-tree") && (w.onlyPlacementDiffers || w.editedAfterRecreation || (kind != "replicas-diverged" && kind != "late-replica-differs")):
 		// F-UNDO-AFTER-PURGE: recorded for trees (small scope) and for the mixed random
 		// family; the exhaustive text / array / object families stay fully judged
 		ident = "undo-after-purge:" + w.rp.Family + ":" + kind
@@ -256,6 +268,93 @@ func (w *c15World) viol(kind, detail string) {
 		}
 	}
 	w.res.Violate(kind, fmt.Sprintf("%s\n(family %s, gc=%v, histories cleared=%v) history: %s", detail, w.rp.Family, w.rp.GC, w.rp.Clear, strings.Join(prog, "; ")), ident, rp)
+}
+
+// contentBag renders a document with every Text as the sorted bag of its characters (with
+// their attributes) and every Tree as the sorted bag of its element tags (with attributes)
+// and text characters; everything else as it is. Two documents with equal bags differ, if at
+// all, only in WHERE text and tree content stands.
+func contentBag(d *document.Document) string {
+	var sb strings.Builder
+	var walk func(e crdt.Element)
+	walk = func(e crdt.Element) {
+		switch v := e.(type) {
+		case *crdt.Object:
+			m := v.Members()
+			ks := make([]string, 0, len(m))
+			for k := range m {
+				ks = append(ks, k)
+			}
+			sort.Strings(ks)
+			sb.WriteString("{")
+			for _, k := range ks {
+				sb.WriteString(k + ":")
+				walk(m[k])
+				sb.WriteString(",")
+			}
+			sb.WriteString("}")
+		case *crdt.Array:
+			sb.WriteString("[")
+			for _, el := range v.Elements() {
+				walk(el)
+				sb.WriteString(",")
+			}
+			sb.WriteString("]")
+		case *crdt.Text:
+			var toks []string
+			for _, n := range v.Nodes() {
+				if n.RemovedAt() != nil {
+					continue
+				}
+				a := ""
+				if n.Value().Attrs() != nil {
+					a = attrString(n.Value().Attrs().Elements())
+				}
+				for _, r := range n.Value().Value() {
+					toks = append(toks, string(r)+a)
+				}
+			}
+			sort.Strings(toks)
+			sb.WriteString("text" + strings.Join(toks, "|"))
+		case *crdt.Tree:
+			var toks []string
+			for _, n := range v.Nodes() {
+				if n.IsRemoved() {
+					continue
+				}
+				if n.IsText() {
+					for _, r := range n.Value {
+						toks = append(toks, "'"+string(r))
+					}
+					continue
+				}
+				a := ""
+				if n.Attrs != nil {
+					a = attrString(n.Attrs.Elements())
+				}
+				toks = append(toks, "<"+n.Type()+a+">")
+			}
+			sort.Strings(toks)
+			sb.WriteString("tree" + strings.Join(toks, "|"))
+		default:
+			sb.WriteString(e.Marshal())
+		}
+	}
+	walk(d.RootObject())
+	return sb.String()
+}
+
+func attrString(m map[string]string) string {
+	ks := make([]string, 0, len(m))
+	for k := range m {
+		ks = append(ks, k)
+	}
+	sort.Strings(ks)
+	s := ""
+	for _, k := range ks {
+		s += " " + k + "=" + m[k]
+	}
+	return s
 }
 
 // unattributed counts the violations of a case that no recorded finding explains.
@@ -424,6 +523,9 @@ func (w *c15World) do(st c15Step) bool {
 	d := w.docs[st.W]
 	switch st.T {
 	case "edit":
+		if w.undone > 0 {
+			w.editedAfterRecreation = true
+		}
 		if w.rp.GC && strings.HasPrefix(st.E.Op, "arr.") {
 			// the same precondition the generator of C01-C03 fences (F-RGA-PURGE): detected,
 			// not vetoed - the exhaustive families enumerate every edit
@@ -446,6 +548,9 @@ func (w *c15World) do(st c15Step) bool {
 		if (st.T == "undo" && !d.CanUndo()) || (st.T == "redo" && !d.CanRedo()) {
 			return false
 		}
+		if w.undone > 0 {
+			w.editedAfterRecreation = true
+		}
 		w.steps = append(w.steps, st)
 		w.undone++
 		w.res.AddStat("undo_redo_calls", 1)
@@ -455,8 +560,16 @@ func (w *c15World) do(st c15Step) bool {
 		}
 		defer w.watchRecreation(st.W)()
 		nBefore := len(d.CreateChangePack().Changes)
+		contentBefore := d.Marshal()
 		if err := safeUndo(d, st.T == "undo"); err != nil {
 			w.viol(st.T+"-failed", fmt.Sprintf("%s on replica %s returned: %v", st.T, st.W, err))
+			return false
+		}
+		if after := d.Marshal(); after != contentBefore && len(d.CreateChangePack().Changes) == nBefore {
+			// the anchor mechanism of the property: "undo/redo changes are appended to the
+			// local changes and pushed". A call that changes the author's document and leaves
+			// no change behind can never reach a peer.
+			w.viol("undo-changed-the-document-without-a-change", fmt.Sprintf("%s on replica %s changed the document from %s to %s but created no local change: no peer will ever see it", st.T, st.W, contentBefore, after))
 			return false
 		}
 		if cs := d.CreateChangePack().Changes; len(cs) > nBefore {
@@ -636,6 +749,7 @@ func (w *c15World) finish() {
 	ref := w.docs["A"].Marshal()
 	for _, n := range w.names[1:] {
 		if m := w.docs[n].Marshal(); m != ref {
+			w.onlyPlacementDiffers = contentBag(w.docs["A"]) == contentBag(w.docs[n])
 			w.viol("replicas-diverged", fmt.Sprintf("after the closing sync rounds%s:\n A shows %s\n %s shows %s", map[bool]string{true: " and collection", false: ""}[w.rp.GC], ref, n, m))
 			return
 		}
@@ -670,6 +784,7 @@ func (w *c15World) finish() {
 		return
 	}
 	if a, b := canonDoc(w.docs["A"]), canonDoc(fresh); a != b {
+		w.onlyPlacementDiffers = contentBag(w.docs["A"]) == contentBag(fresh)
 		w.viol("late-replica-differs", fmt.Sprintf("the replicas show %s\na replica built from the log alone shows %s", a, b))
 	}
 }
